@@ -558,6 +558,11 @@ func (t *Transition) emitExitEvents() Result {
 				// partial auto state acceptance
 				targetStates := t.TargetStates()
 				idx := slices.Index(targetStates, fromState)
+				if idx == -1 {
+					// an exiting state is never a target state, nothing to accept
+					// partially: the veto cancels the auto transition
+					return ret
+				}
 				t.TargetIndexes = slices.Delete(t.TargetIndexes, idx, idx+1)
 				targetStates = slices.Delete(targetStates, idx, idx+1)
 				t.cacheTargetStates.Store(&targetStates)
